@@ -6,5 +6,6 @@ pub fn main(args: &[String]) {
     for (i, b) in a.code.iter().enumerate() { let v: Vec<_> = b.ops.iter().filter(|o| o.2.contains("Table") || o.2.contains("Elem") || o.2.contains("RefFunc")).map(|o| o.0.clone()).collect(); println!("IN code {}: {:?}", i, v); }
     let mut m = walrus::Module::from_buffer(&bytes).unwrap(); walrus::passes::gc::run(&mut m); let o = m.emit_wasm(); let b = crate::amod::decode(&o).unwrap();
     println!("OUT elems: {:?}", b.elems);
+    if std::env::var("VH_FULL").is_ok() { for (i, c) in a.code.iter().enumerate() { println!("IN  f{} locals {:?}: {}", i, c.locals, c.ops.iter().map(|o| o.0.clone().unwrap_or(o.2.to_string())).collect::<Vec<_>>().join(" ; ")); } for (i, c) in b.code.iter().enumerate() { println!("OUT f{} locals {:?}: {}", i, c.locals, c.ops.iter().map(|o| o.0.clone().unwrap_or(o.2.to_string())).collect::<Vec<_>>().join(" ; ")); } println!("IN tables {:?}\nOUT tables {:?}\nOUT exports {:?}", a.tables, b.tables, b.exports); }
     println!("reach: {:?}", crate::oracles::reachable(&a));
 }
